@@ -751,6 +751,11 @@ def _run_text(spec, rec, d):
             if kind == "R" and lm._scalar(obj) is None:
                 rec.skip("text:range-value-not-a-number")
                 continue
+            if kind == "U" and isinstance(obj, (list, tuple, np.ndarray)):
+                # recommended user types are str/bool/float/int; a multi-line array
+                # text would be file syntax of its own
+                rec.skip("text:user-container")
+                continue
             if isinstance(obj, (str, bytes)) and not (isinstance(obj, str) and _text_safe(obj)):
                 rec.skip("text:string-not-expressible-in-file-syntax")
                 continue
@@ -1019,6 +1024,20 @@ def _open_cfg(rec, path, exp, tag):
     return cfg
 
 
+def _check_attrs(rec, path, exp):
+    with h5py.File(path, "r") as h5:
+        for (sec, key), (kind, val) in sorted(exp.known.items()):
+            a = h5.attrs.get(f"{sec}:{key}")
+            if a is None:
+                rec.fail(f"attr/missing/{lm.KINDNAME[kind]}", f"{sec}:{key} not written")
+                continue
+            rec.check(_attr_type_ok(kind, a), f"attr/type/{lm.KINDNAME[kind]}",
+                      lambda: f"attribute {sec}:{key} is {_short(a)}")
+        for k, a in h5.attrs.items():
+            rec.check(not isinstance(a, (bytes, np.bytes_)), "attr/bytes",
+                      lambda: f"attribute {k} stored as bytes")
+
+
 def _mask(bits, n):
     m = np.array([bits[i % len(bits)] for i in range(n)], dtype=bool)
     if not m.any():
@@ -1169,18 +1188,9 @@ def _run_h5(spec, rec, d):
                 h5.attrs[f"user:{key}"] = obj
     exp.known[("setup", "software version")] = ("S", f"{swver} | dclab {VERSION}")
     # ---- attribute types (writer converts to the pre-defined dtype, never bytes)
-    if src != "raw":
-        with h5py.File(path, "r") as h5:
-            for (sec, key), (kind, _) in sorted(exp.known.items()):
-                a = h5.attrs.get(f"{sec}:{key}")
-                if a is None:
-                    rec.fail(f"attr/missing/{lm.KINDNAME[kind]}", f"{sec}:{key} not written")
-                    continue
-                rec.check(_attr_type_ok(kind, a), f"attr/type/{lm.KINDNAME[kind]}",
-                          lambda: f"attribute {sec}:{key} is {_short(a)}")
-            for k, a in h5.attrs.items():
-                rec.check(not isinstance(a, (bytes, np.bytes_)), "attr/bytes",
-                          lambda: f"attribute {k} stored as bytes")
+    raw_attrs = src == "raw"
+    if not raw_attrs:
+        _check_attrs(rec, path, exp)
     cfg = _open_cfg(rec, path, exp, src)
     exp.compare(rec, cfg, src)
     # ---- carry over
@@ -1247,8 +1257,12 @@ def _run_h5(spec, rec, d):
                 else:
                     exp.known[("experiment", "run index")] = ("I", 1)
                 cli.join(paths_in=[str(other), str(cur)], path_out=str(out), **kw)
+        if tname in ("export", "split", "join"):
+            raw_attrs = False  # rewritten through store_metadata
         for oi, o in enumerate(outs):
             e2 = exp
+            if not raw_attrs:
+                _check_attrs(rec, o, exp)
             cfg = _open_cfg(rec, o, e2, tname)
             e2.compare(rec, cfg, tname, skip=skip)
             if tool == "split":
